@@ -1069,6 +1069,12 @@ def slice_upd(v, a, b, u, optional=False):
     if first is MISSING:
         yield V.seq_back(v, units[:lo] + units[hi:])
         return
+    if first is TAINT:
+        # an unknown message spliced into a text string: some string we do not know
+        if isinstance(v, Str) and v.text:
+            yield TAINT
+            return
+        raise builtin_error()
     if isinstance(v, list):
         if not isinstance(first, list):
             raise builtin_error()
